@@ -2,7 +2,9 @@
 (* Bounded instance of Registry.tla: every sequence of Depth operations of each machine.  The state carries the     *)
 (* history, so the state graph is the tree of behaviours; a behaviour is emitted when it is complete.               *)
 EXTENDS Registry, Json
-CONSTANTS Depth, Emit
+CONSTANTS Depth, Emit,
+          DepthA,      \* length of the behaviours of machine "alias"
+          Aliased      \* FALSE: the transcription of the code; TRUE: the what-if in which a type keeps the caller's list (counterexample cfg)
 ASSUME [k |-> "x", v |-> 1] = [k |-> "x", v |-> 1]
 
 \* an operation: [op, c, h, fail, name, spec]  (unused fields "-" / FALSE)
@@ -13,15 +15,23 @@ OpCreate(nm, sp)  == [op |-> "create", c |-> "-", h |-> "-", fail |-> FALSE, nam
 \* machine "handlers": every registration on class A, one registration on class B (independence), uses of both
 HOps == {OpReg("A", h, f) : h \in Handlers, f \in BOOLEAN} \cup {OpReg("B", "hB", TRUE)}
         \cup {OpUse(c, t) : c \in UClasses, t \in UTexts} \cup {OpDump(c) : c \in UClasses}
+OpCreateA(nm)     == [op |-> "createa", c |-> "-", h |-> "-", fail |-> FALSE, name |-> nm, spec |-> "-"]
+OpMutate(how)     == [op |-> "mutate", c |-> "-", h |-> how, fail |-> FALSE, name |-> "-", spec |-> "-"]
+OpProbe(nm)       == [op |-> "probe", c |-> "-", h |-> "-", fail |-> FALSE, name |-> nm, spec |-> "-"]
+AOps == {OpCreateA(nm) : nm \in {"N1", "N2"}} \cup {OpMutate(how) : how \in AMutations} \cup {OpProbe(nm) : nm \in {"N1", "N2"}}
 COps == {OpCreate(nm, sp) : nm \in {"N1", "N2"}, sp \in CSpecs} \cup {OpCreate("auto", sp) : sp \in {"Nand", "Nor"}}
 
-VARIABLES mach, hist, outs, rreg, ahs, rtypes, akeys, anames
-rvars == <<mach, hist, outs, rreg, ahs, rtypes, akeys, anames>>
+VARIABLES mach, hist, outs, rreg, ahs, rtypes, akeys, anames, acur
+rvars == <<mach, hist, outs, rreg, ahs, rtypes, akeys, anames, acur>>
 \* an outcome: [ref, alg, why, sem]   ref / alg: outcome class (Ref may allow two: "raise|new"); sem: acceptance vector (create)
 NoSem == <<FALSE, FALSE, FALSE>>
-Out(r, a, w, d, s) == [ref |-> r, alg |-> a, why |-> w, dev |-> d, sem |-> s]
+NoSem4 == <<FALSE, FALSE, FALSE, FALSE>>
+\* rsem = the acceptance vector Ref demands (create / createa / probe), cont = the content the type stands for (alias)
+Out(r, a, w, d, s) == [ref |-> r, alg |-> a, why |-> w, dev |-> d, sem |-> s, rsem |-> NoSem, cont |-> << >>]
+OutS(r, a, w, d, s, rs) == [ref |-> r, alg |-> a, why |-> w, dev |-> d, sem |-> s, rsem |-> rs, cont |-> << >>]
+OutA(r, a, w, s, rs, ct) == [ref |-> r, alg |-> a, why |-> w, dev |-> "-", sem |-> s, rsem |-> rs, cont |-> ct]
 
-Init == /\ mach \in {"handlers", "create"} /\ hist = << >> /\ outs = << >>
+Init == /\ mach \in {"handlers", "create", "alias"} /\ hist = << >> /\ outs = << >> /\ acur = AContent0
         /\ rreg = [c \in UClasses |-> NoHandler] /\ ahs = [c \in UClasses |-> NoObj]
         /\ rtypes = {} /\ akeys = {} /\ anames = {}
 
@@ -29,7 +39,7 @@ StepH(o) ==
   /\ mach = "handlers" /\ o \in HOps
   /\ (o.op \in {"use", "dump"} => rreg[o.c] # NoHandler)             \* a class is used once it is registered
   /\ hist' = Append(hist, o)
-  /\ UNCHANGED <<mach, rtypes, akeys, anames>>
+  /\ UNCHANGED <<mach, rtypes, akeys, anames, acur>>
   /\ CASE o.op = "reg" ->
             LET r == RefRegister(rreg, o.c, o.h, o.fail)  a == AlgRegister(ahs, o.c, o.h, o.fail) IN
             /\ rreg' = r.reg /\ ahs' = a.hs /\ outs' = Append(outs, Out(r.out, a.out, "-", "-", NoSem))
@@ -42,14 +52,36 @@ StepH(o) ==
 StepC(o) ==
   /\ mach = "create" /\ o \in COps
   /\ hist' = Append(hist, o)
-  /\ UNCHANGED <<mach, rreg, ahs>>
+  /\ UNCHANGED <<mach, rreg, ahs, acur>>
   /\ LET nm == IF o.name = "auto" THEN AutoName(o.spec) ELSE o.name
          R  == RefCreate(rtypes, nm, o.spec)
          a  == AlgCreate(akeys, anames, o.name, o.spec)
      IN /\ akeys' = a.keys /\ anames' = a.names
         /\ rtypes' = IF a.out = "new" THEN rtypes \cup {[name |-> nm, spec |-> o.spec]} ELSE rtypes      \* Ref follows the choice the code made where it allows two
-        /\ outs' = Append(outs, Out(IF R = {"raise", "new"} THEN "raise|new" ELSE CHOOSE x \in R : TRUE, a.out, a.why, a.dev, a.sem))
-Next == Len(hist) < Depth /\ \E o \in HOps \cup COps : StepH(o) \/ StepC(o)
+        /\ outs' = Append(outs, OutS(IF R = {"raise", "new"} THEN "raise|new" ELSE CHOOSE x \in R : TRUE, a.out, a.why, a.dev, a.sem, Sem(o.spec)))
+\* machine "alias": rtypes holds [name, cont] (Ref), akeys [key, name, cont] (Alg), acur the caller's list
+StepA(o) ==
+  /\ mach = "alias" /\ o \in AOps
+  /\ hist' = Append(hist, o)
+  /\ UNCHANGED <<mach, rreg, ahs>>
+  /\ CASE o.op = "createa" ->
+            /\ acur # << >>                                       \* (the key of the empty list has no per-behaviour reference: not created)
+            /\ LET R == RefCreateA(rtypes, o.name, acur)  a == AlgCreateA(akeys, anames, o.name, acur) IN
+               /\ akeys' = a.keys /\ anames' = a.names /\ UNCHANGED acur
+               /\ rtypes' = IF a.out = "new" THEN rtypes \cup {[name |-> o.name, cont |-> acur]} ELSE rtypes
+               /\ outs' = Append(outs, OutA(IF R = {"raise", "new"} THEN "raise|new" ELSE CHOOSE x \in R : TRUE, a.out, a.why, ASem(a.cont), ASem(acur), a.cont))
+       [] o.op = "mutate" ->
+            /\ AMutEnabled(acur, o.h)
+            /\ acur' = AMutate(acur, o.h) /\ UNCHANGED <<rtypes, akeys, anames>>
+            /\ outs' = Append(outs, OutA("ok", "ok", "-", NoSem4, NoSem4, AMutate(acur, o.h)))
+       [] o.op = "probe" ->
+            /\ \E ty \in rtypes : ty.name = o.name
+            /\ UNCHANGED <<rtypes, akeys, anames, acur>>
+            /\ LET rc == RefProbeA(rtypes, o.name)
+                   ac == IF Aliased THEN AliasedProbeA(akeys, o.name, acur) ELSE AlgProbeA(akeys, o.name) IN
+               outs' = Append(outs, OutA("probed", "probed", "-", ASem(ac), ASem(rc), ac))
+Next == \/ Len(hist) < Depth /\ \E o \in HOps \cup COps : StepH(o) \/ StepC(o)
+        \/ Len(hist) < DepthA /\ \E o \in AOps : StepA(o)
 Spec == Init /\ [][Next]_rvars
 
 Last == outs[Len(outs)]
@@ -66,11 +98,18 @@ CreateRefines == (mach = "create" /\ hist # << >>) =>
      IF Last.dev = "-" THEN AllowedByRef(Last) /\ (Last.alg \in {"new", "existing"} => Last.sem = Sem(LastOp.spec))
      ELSE ~AllowedByRef(Last) /\ Last.alg = "existing" /\ Last.sem # Sem(LastOp.spec)
 \* the code's key table and the Ref set of types hold the same types
+\* alias: whatever was done to the caller's list, a probed type stands for the content it was created from, an "existing"
+\* type is the one created from an equal content, and the code's table holds the Ref types
+AliasRefines == (mach = "alias" /\ hist # << >>) =>
+     /\ (LastOp.op = "probe" => Last.sem = Last.rsem)
+     /\ (LastOp.op = "createa" => (AllowedByRef(Last) /\ (Last.alg \in {"new", "existing"} => Last.sem = Last.rsem)))
+     /\ {[name |-> e.name, cont |-> e.cont] : e \in akeys} = rtypes
 CreateStateAgrees == mach = "create" => {[name |-> e.name, spec |-> e.spec] : e \in akeys} = rtypes
 \* the two sets of flags of one pattern text can never both exist (consequence of the key): the model says so
 CreateFlagsExclusive == mach = "create" => ~(\E e1 \in akeys, e2 \in akeys : e1.spec = "S1" /\ e2.spec = "S1i")
 \* ---- emission of complete behaviours
-EmitBehaviour == (Emit /\ Len(hist) = Depth) =>
-     PrintT(ToJson([mach |-> mach, ops |-> hist, outs |-> outs,
-                    want |-> [q \in 1..Len(hist) |-> IF hist[q].op = "create" THEN Sem(hist[q].spec) ELSE NoSem]]))
+\* alias behaviours are emitted when they are complete or cannot be extended; only those that probe or create after a mutation are of interest
+Complete == IF mach = "alias" THEN Len(hist) = DepthA ELSE Len(hist) = Depth
+EmitBehaviour == (Emit /\ Complete) =>
+     PrintT(ToJson([mach |-> mach, ops |-> hist, outs |-> outs, want |-> [q \in 1..Len(hist) |-> outs[q].rsem]]))
 =============================================================================
